@@ -45,7 +45,7 @@ func scriptName(s []wop) string {
 }
 
 func configs04(tier string) []xplore.Config {
-	alpha := []wop{{"upd", "a/b"}, {"upd", "a/c"}, {"same", "a/b"}, {"del", "a/b"}, {"del", "a"}, {"reset", ""}}
+	alpha := []wop{{"upd", "a/b"}, {"upd", "a/c"}, {"same", "a/b"}, {"del", "a/b"}, {"del", "a"}, {"reset", ""}, {"atomic", "a/k"}}
 	stream := pb.SubscriptionList_STREAM
 	subs := []subSpec{
 		{target: "t1", paths: []string{"a"}, mode: stream},
@@ -221,6 +221,17 @@ func checkStream04(out *xplore.Outcome, w *world, d cfg04, i int, st *fstream) {
 			continue
 		}
 		t := n.GetPrefix().GetTarget()
+		if n.Atomic {
+			idx := fullIndex(n.Prefix, nil)
+			k := t + "|" + strings.Join(idx, "/")
+			if !subscribed(sp, t, idx) {
+				viol(out, "outside-subscription", "subscription %d (%s) received atomic %s", i, sp, k)
+			}
+			if !w.held[k][atomicVal(n)] {
+				viol(out, "value-never-held", "subscription %d (%s) received %s=%s, which that container never held as a unit (%v): atomic notifications must not be split or mixed", i, sp, k, atomicVal(n), w.held[k])
+			}
+			continue
+		}
 		for _, u := range n.Update {
 			idx := fullIndex(n.Prefix, u.Path)
 			k := t + "|" + strings.Join(idx, "/")
